@@ -50,6 +50,11 @@ CLAIMED.update({
             "SSA partial evaluation per input byte -> row equality between byte classes; typed-AST normalisation check", "§4 C14"),
 })
 
+CLAIMED.update({
+    "C01": ("Static decision of structural necessary conditions of 'Check() verdict = rule semantics': each value validator and compile-time pair check is extracted by symbolic evaluation as a guard->outcome table and compared with the documented rule semantics for every ordering of its operands and every exclusivity flag (operands identified by data flow; decimal predicates interpreted through their own extracted tables); rule-name -> constraint wiring is checked against the decoded stringer tables; exclusiveMinimum/Maximum folding, validator dispatch (all constraints validated, nullable short-circuit, interface coverage), the `or` all-fail rule and the format validators' stdlib delegation are checked structurally. Does not decide the composition over arbitrary schemas, regex matching or enum equality of escaped strings.",
+            "symbolic decision tables over go/ssa (abstract interpreter) compared with reference truth tables; typed-AST wiring checks; stringer/switch table decoding", "§4 C01"),
+})
+
 NOT_YET = {}
 
 NOT_APPLICABLE = {
